@@ -22,9 +22,11 @@ package workceptor
 //@   requires rw != nil
 //@   modifies nothing
 //@   loop range ed.RemoteParams
+//@     invariant FRAME1: fresh(keysToDelete) && framemem(keysToDelete)
 //@     invariant ONLYSECRET: forall j int :: 0 <= j && j < len(keysToDelete) ==> isSecret(keysToDelete[j])
 //@     invariant ALLSECRET: forall k string :: visited(k) && isSecret(k) ==> exists j int :: 0 <= j && j < len(keysToDelete) && keysToDelete[j] == k
 //@   loop range keysToDelete
+//@     invariant FRAME2: framemap(ed.RemoteParams)
 //@     invariant GONE: forall j int :: 0 <= j && j <= rangeindex ==> !(keysToDelete[j] in ed.RemoteParams)
 //@     invariant KEPT: forall k string :: !isSecret(k) ==> ((k in ed.RemoteParams) == atloop(k in ed.RemoteParams)) && ed.RemoteParams[k] == atloop(ed.RemoteParams[k])
 //@     invariant SHRINK: forall k string :: (k in ed.RemoteParams) ==> atloop(k in ed.RemoteParams)
